@@ -46,12 +46,16 @@ def trial(args):
     d = os.path.join(VERIF, "seeded", sid)
     meta = json.load(open(os.path.join(d, "meta.json")))
     checks = meta.get("caught_by") or [meta["property"]]
-    sh(f"git -C {wt} checkout -q -- .")
+    sh(f"git -C {wt} reset -q --hard HEAD; git -C {wt} clean -fdq")
     ap = sh(f"git -C {wt} apply {d}/patch.diff")
     if ap.returncode:
+        # the stored patch is against the HEAD of its day; /repo has moved on (fix: commits in the
+        # same file): a clean three-way application is still a fair trial, a conflict is not
         ap = sh(f"git -C {wt} apply -3 {d}/patch.diff")
-        if ap.returncode:
+        if ap.returncode or sh(f"git -C {wt} diff --name-only --diff-filter=U").stdout.strip():
+            sh(f"git -C {wt} reset -q --hard HEAD; git -C {wt} clean -fdq")
             return sid, "PATCH-DOES-NOT-APPLY", []
+        sh(f"git -C {wt} reset -q")  # unstage, keep the changed files
     res = []
     caught = False
     for c in checks:
@@ -61,7 +65,9 @@ def trial(args):
         if r.returncode == 1:
             caught = True
             break
-    sh(f"git -C {wt} checkout -q -- . ; git -C {wt} clean -fdq")
+    sh(f"git -C {wt} reset -q --hard HEAD; git -C {wt} clean -fdq")
+    if not caught and any(rc == 2 for _c, rc, _s in res):
+        return sid, "HARNESS-ERROR", res
     return sid, "caught" if caught else "MISSED", res
 
 
@@ -81,7 +87,7 @@ def main():
             for out in ex.map(lane, range(workers)):
                 for sid, verdict, res in out:
                     print(sid, verdict, res, flush=True)
-                    bad += verdict != "caught"
+                    bad += verdict in ("MISSED", "HARNESS-ERROR")
     finally:
         for k in range(workers):
             teardown(k)
